@@ -33,6 +33,14 @@ CASES = [
     ("use database nodb", 2043, "02000"),
     ("truncate table nope", 2003, "42S02"),
     ("select $undefined_var", None, None),
+    # an undefined session variable wherever it stands relative to string literals, other (defined) variables and '$' inside literals
+    ("select 'a' as x, $undefined_var as y", None, None),
+    ("select $undefined_var as y, 'b' as z", None, None),
+    ("select 'a' as x, $undefined_var as y, 'b' as z", None, None),
+    ("select x from t where 'x' = 'x' and x = $undefined_var and 'z' = 'z'", None, None),
+    ("insert into t select $undefined_var where 'p' <> 'q'", None, None),
+    ("select $keep as k, 'lit' as l, $undefined_var as y, 'lit2' as m", None, None),
+    ("select 'costs $5' as s, $undefined_var as y, 'b' as z", None, None),
 ]
 
 
